@@ -52,18 +52,24 @@ structure Cfg where
   fixDeleteAll : Bool := false
   /-- D2 (opt.c `list_push_hostlist`): the buffer doubling loop really doubles -/
   fixPushLoop : Bool := false
+  /-- F16-ENDPUSH: an iterator that has nothing left STAYS on the last host it handed out (and
+      `hostlist_next` looks its record up by position), so hosts pushed later come next;
+      `hostlist_pop` steps iterators that stood on the popped host back -/
+  fixEndPush : Bool := false
   deriving DecidableEq, Repr, Inhabited
 
 /-- the code as found -/
 def Cfg.unchanged : Cfg :=
   { fixUlongMax := false, fixDigits := false, fixIterSuffix := false, fixCurTok := false,
     fixSuffixBal := false, fixHostBuf := false, fixNth := false, fixRemoveDepth := false,
-    fixPopIter := false, fixCmpTrunc := false, fixDeleteAll := false, fixPushLoop := false }
+    fixPopIter := false, fixCmpTrunc := false, fixDeleteAll := false, fixPushLoop := false,
+    fixEndPush := false }
 /-- the code with findings/C01.patch, C15.patch (and D24 of C16.patch) applied -/
 def Cfg.repaired : Cfg :=
   { fixUlongMax := true, fixDigits := true, fixIterSuffix := true, fixCurTok := true,
     fixSuffixBal := true, fixHostBuf := true, fixNth := true, fixRemoveDepth := true,
-    fixPopIter := true, fixCmpTrunc := true, fixDeleteAll := true, fixPushLoop := true }
+    fixPopIter := true, fixCmpTrunc := true, fixDeleteAll := true, fixPushLoop := true,
+    fixEndPush := true }
 
 /-! ### `unsigned long` -/
 def U64 : Nat := 18446744073709551616
